@@ -75,6 +75,9 @@ class RunState:
         self.first_dirs: dict[str, tuple[str, str, str]] = {}  # directories of each job's FIRST attempt
         self.job_outputs: dict[str, list[str]] = {}  # job -> output paths written
         self.lost_jobs: set[str] = set()
+        # read-only transfers to a site with its own storage leave a physical replica: replica path -> path it copies
+        self.replica_of: dict[str, str] = {}
+        self.truly_lost: set[str] = set()  # lost jobs with at least one output of which no copy at all was left
         self.loss_events: dict[str, int] = {}  # job -> how many times existing data of that job was deleted
 
     def hit(self, job: str, phase: str):
@@ -113,9 +116,12 @@ class KitLocalConnector(LocalConnector):
     """LocalConnector with a constant, cheap hardware description (no psutil probing)."""
 
     def __init__(self, deployment_name: str, config_dir: str, transferBufferSize: int = 2 ** 16,
-                 cores: float = 64.0, slots: int | None = None, nlocs: int = 1):
+                 cores: float = 64.0, slots: int | None = None, nlocs: int = 1, own_storage: bool = False):
         super(LocalConnector, self).__init__(deployment_name, config_dir, transferBufferSize)
         self._nlocs = nlocs
+        # own_storage: a site whose storage is separate from the other deployments' (as every remote connector's is):
+        # job inputs are transferred read-only and a read-only transfer into it is a physical copy, not a symbolic link
+        self.own_storage = own_storage
         self._hardware = Hardware(cores=float(cores), memory=float(2 ** 20),
                                   storage={os.sep: Storage(mount_point=os.sep, size=float(2 ** 30))})
         self._slots = slots
@@ -129,6 +135,16 @@ class KitLocalConnector(LocalConnector):
                 local=True, slots=self._slots or 1, hardware=None if self._slots else self._hardware)
             for n in names
         }
+
+    async def copy_local_to_remote(self, src, dst, locations, read_only=False):
+        await super().copy_local_to_remote(src, dst, locations, read_only and not self.own_storage)
+
+    async def copy_remote_to_local(self, src, dst, location, read_only=False):
+        await super().copy_remote_to_local(src, dst, location, read_only and not self.own_storage)
+
+    async def copy_remote_to_remote(self, src, dst, locations, source_location, source_connector=None, read_only=False):
+        await super().copy_remote_to_remote(src, dst, locations, source_location, source_connector,
+                                            read_only and not self.own_storage)
 
     async def run(self, location, command, environment=None, workdir=None, stdin=None, stdout=None, stderr=None,
                   capture_output=False, timeout=None, job_name=None):
@@ -220,6 +236,7 @@ def _copy_files(value, job: Job, counter: list):
             os.makedirs(job.output_directory, exist_ok=True)
             counter[0] += 1
             dst = os.path.join(job.output_directory, f"out{counter[0]}-{os.path.basename(src)}")
+            RUN.job_outputs.setdefault(job.name, []).append(dst)
             with open(src, "rb") as f:
                 data = f.read()
             with open(dst, "wb") as f:
@@ -269,6 +286,12 @@ def _lose(run: RunState, context, job: Job, what):
             shutil.rmtree(d, ignore_errors=True)
     for n in hit:
         run.loss_events[n] = run.loss_events.get(n, 0) + 1
+    # a lost job stays "replica-saved" as long as every file it wrote still has a physical copy somewhere
+    for n in run.lost_jobs - run.truly_lost:
+        outs = run.job_outputs.get(n)
+        if not outs or not all(os.path.exists(o) or any(root == o and os.path.exists(r) for r, root in run.replica_of.items())
+                               for o in outs):
+            run.truly_lost.add(n)
 
 
 class GateCommand(Command):
@@ -306,6 +329,7 @@ class GateCommand(Command):
             try:
                 inputs = {k: plain_value(t) for k, t in job.inputs.items()}
                 counter = [0]
+                run.job_outputs[job.name] = []
                 value = _copy_files(_apply_op(self.op, job, inputs), job, counter)
                 out = CommandOutput(value, Status.COMPLETED)
                 run.completed_log.append(job.name)
@@ -347,10 +371,13 @@ class PlanTransferStep(TransferStep):
             path=path, dst_deployment=dst_connector.deployment_name
         ):
             dst_path = os.path.join(job.input_directory, source_location.relpath)
+            readonly = bool(getattr(dst_connector, "own_storage", False))
             try:
                 await ctx.data_manager.transfer_data(
                     src_location=source_location.location, src_path=source_location.path,
-                    dst_locations=dst_locations, dst_path=dst_path, writable=True)
+                    dst_locations=dst_locations, dst_path=dst_path, writable=not readonly)
+                if readonly and not os.path.islink(dst_path) and os.path.exists(dst_path):
+                    RUN.replica_of[dst_path] = RUN.replica_of.get(source_location.path, source_location.path)
             except (WorkflowExecutionException, OSError) as err:
                 RUN.failure_log.append((job.name, "transfer", f"collateral:{type(err).__name__}"))
                 RUN.fail_sites.append((job.name, self.name))
@@ -453,9 +480,13 @@ class PyConditionalStep(ConditionalStep):
 class WB:
     """Small builder around the real step classes.  Names are deterministic."""
 
-    def __init__(self, context, workdir: str, name="wf", recoverable_inputs=True, nlocs=1):
+    def __init__(self, context, workdir: str, name="wf", recoverable_inputs=True, nlocs=1, sites=None):
         self.ctx = context
         self.nlocs = nlocs
+        # sites: job step name -> deployment; every deployment other than "kit" is a site with its own storage
+        self.sites = dict(sites or {})
+        self._site_cfgs = {}
+        self._site_steps = {}
         self.wf = Workflow(context, config={}, name=name)
         self.workdir = workdir
         self.n = 0
@@ -562,14 +593,26 @@ class WB:
                 connector_port=self.port(cls=ConnectorPort))
         return self._deploy_step
 
+    def site_step(self, site):
+        if site == "kit":
+            return self.deploy_step(), self.deploy_cfg
+        if site not in self._site_steps:
+            self._site_cfgs[site] = DeploymentConfig(name=site, type="kitlocal", config={"own_storage": True},
+                                                     external=False, lazy=False, workdir=self.workdir)
+            self._site_steps[site] = self.wf.create_step(
+                DeployStep, name=f"/__deploy__/{site}", deployment_config=self._site_cfgs[site],
+                connector_port=self.port(cls=ConnectorPort))
+        return self._site_steps[site], self._site_cfgs[site]
+
     def job(self, ports: dict, op="copy", name=None, plan_steps=True, out_name="out", dirs=None, locations=1):
         """schedule -> transfer(per input) -> execute; returns the output port."""
         name = name or self._name("job")
-        dep = self.deploy_step()
-        binding = BindingConfig(targets=[Target(deployment=self.deploy_cfg, workdir=self.workdir, locations=locations)])
+        site = self.sites.get(name, "kit")
+        dep, dep_cfg = self.site_step(site)
+        binding = BindingConfig(targets=[Target(deployment=dep_cfg, workdir=self.workdir, locations=locations)])
         sched = self.wf.create_step(
             PlanScheduleStep if plan_steps else ScheduleStep, name=posixpath.join(name, "__schedule__"),
-            job_prefix=name, connector_ports={"kit": dep.get_output_port()}, binding_config=binding,
+            job_prefix=name, connector_ports={site: dep.get_output_port()}, binding_config=binding,
             **({"input_directory": dirs[0], "output_directory": dirs[1], "tmp_directory": dirs[2]} if dirs else {}))
         ex = self.wf.create_step(ExecuteStep, name=name, job_port=sched.get_output_port())
         ex.command = GateCommand(ex, op=op)
